@@ -129,6 +129,18 @@ const vbPredefPerFunction = `{ currFn := vs.emitter.fb.fn if index, ok := vs.pre
 // pinned body of varStore.setPredefVarRef
 const vbSetPredefVarRef = `{ if vs.predefVarRef[fn] == nil { vs.predefVarRef[fn] = map[*reflect.Value]int16{} } vs.predefVarRef[fn][v] = index }`
 
+// the statements of varStore.packageVarRef (commit ccfaf1d) before and after its limit checks
+var vbPackageVarRefHead = []string{
+	"if fn.VarRefs == nil { return index }",
+	"if ref, ok := vs.closureVars[fn][name]; ok { return ref }",
+}
+var vbPackageVarRefTail = []string{
+	"fn.VarRefs = append(fn.VarRefs, vs.packageVarRef(fn.Parent, name, index))",
+	"ref := int16(len(fn.VarRefs) - 1)",
+	"vs.setClosureVar(fn, name, ref)",
+	"return ref",
+}
+
 func vbStripComments(g *vbFile, n ast.Node) string {
 	// printer.Fprint of a node (not a file) does not print free-floating comments
 	return g.src(n)
@@ -393,6 +405,7 @@ func genVarBinding(repo string) (string, error) {
 			return "", vs.errf(nl.Body, "nonLocalVarIndex is not [… currPkg := vs.emitter.pkg; three lookups; return 0, false]")
 		}
 		var order []string
+		pkgVarIndexing := ""
 		for _, st := range body[start : start+3] {
 			is, ok := st.(*ast.IfStmt)
 			if !ok || is.Else != nil {
@@ -404,8 +417,43 @@ func genVarBinding(repo string) (string, error) {
 				order = append(order, ".predefined")
 			case is.Init != nil && vs.src(is.Init) == "index, ok := vs.closureVars[currFn][fullName]" && vs.src(is.Cond) == "ok" && vs.src(is.Body) == "{ return int(index), true }":
 				order = append(order, ".closureVars")
-			case is.Init != nil && vs.src(is.Init) == "index, ok := vs.scriggoPackageVarRefs[currPkg][fullName]" && vs.src(is.Cond) == "ok" && vs.src(is.Body) == "{ return int(index), true }":
+			case is.Init != nil && vs.src(is.Init) == "index, ok := vs.scriggoPackageVarRefs[currPkg][fullName]" && vs.src(is.Cond) == "ok" &&
+				vs.src(is.Body) == "{ return int(vs.packageVarRef(currFn, fullName, index)), true }":
+				// since ccfaf1d the index of the global goes through packageVarRef: the global's own index
+				// in a function that is not a closure, an entry of the closure's VarRefs otherwise. The
+				// helper is pinned whole; the bare `return int(index), true` of before (a closure then read
+				// vars[index of the global]) is no longer a recognised shape.
+				pr, err := vs.fn("varStore", "packageVarRef")
+				if err != nil {
+					return "", err
+				}
+				if got := vs.src(pr.Type); got != "func(fn *runtime.Function, name string, index int16) int16" {
+					return "", vs.errf(pr.Type, "signature of packageVarRef")
+				}
+				// [not a closure: the global's index; known entry; limit checks; new entry that refers to what
+				// the parent refers to the global with; record it; return it]
+				pst := pr.Body.List
+				if len(pst) < len(vbPackageVarRefHead)+len(vbPackageVarRefTail) {
+					return "", vs.errf(pr.Body, "body of packageVarRef is not the pinned shape")
+				}
+				for i, want := range vbPackageVarRefHead {
+					if vs.src(pst[i]) != want {
+						return "", vs.errf(pst[i], "statement of packageVarRef is not `"+want+"`")
+					}
+				}
+				for i, want := range vbPackageVarRefTail {
+					if st := pst[len(pst)-len(vbPackageVarRefTail)+i]; vs.src(st) != want {
+						return "", vs.errf(st, "statement of packageVarRef is not `"+want+"`")
+					}
+				}
+				for _, mid := range pst[len(vbPackageVarRefHead) : len(pst)-len(vbPackageVarRefTail)] {
+					is, ok := mid.(*ast.IfStmt)
+					if !ok || is.Init != nil || is.Else != nil || len(is.Body.List) != 1 || !strings.HasPrefix(vs.src(is.Body.List[0]), "panic(") {
+						return "", vs.errf(mid, "statement of packageVarRef that is not a limit check")
+					}
+				}
 				order = append(order, ".packageVars")
+				pkgVarIndexing = ".globalIndexOrVarRef"
 			default:
 				return "", vs.errf(st, "lookup of nonLocalVarIndex is none of predefined / closureVars / scriggoPackageVarRefs")
 			}
@@ -417,6 +465,10 @@ func genVarBinding(repo string) (string, error) {
 		if len(seen) != 3 {
 			return "", vs.errf(nl.Body, "the three lookups of nonLocalVarIndex are not distinct")
 		}
+		if pkgVarIndexing == "" {
+			return "", vs.errf(nl.Body, "nonLocalVarIndex: how a package variable is indexed was not recognised")
+		}
+		fmt.Fprintf(&b, "/-- emitter_var_store.go, nonLocalVarIndex + packageVarRef: the index returned for a name found among\nthe package variables of the current package -/\ninductive PkgVarIndexing\n  | globalIndex           -- the index of the global, whatever the current function\n  | globalIndexOrVarRef   -- `fn.VarRefs == nil`: the index of the global; a closure: the entry of its VarRefs\n                          --   (added on first use, here and in the enclosing closures) that refers to the global\n  deriving DecidableEq, Repr\ndef pkgVarIndexing : PkgVarIndexing := %s\n\n", pkgVarIndexing)
 		fmt.Fprintf(&b, "/-- emitter_var_store.go, nonLocalVarIndex: the order in which a non-local name is looked up -/\ninductive Lookup\n  | predefined    -- `ti.IsNative()`: what the checker resolved to a native (global) variable\n  | closureVars   -- by name among the captured variables of the current function\n  | packageVars   -- by name among the package-level variables bound in the current package\n  deriving DecidableEq, Repr\ndef lookupOrder : List Lookup := [%s]\n\n", strings.Join(order, ", "))
 	}
 	// bindScriggoPackageVar binds imported package variables by name, whatever their case
